@@ -257,8 +257,6 @@ def check(run):
         run.broke('forward_request no longer appends to m_server_out_buffer')
     single_origin_attempt_rule(run, fr)
     connecting_latch_rule(run, fr)
-    import p16 as _p16
-    _p16.header_lines_kept_rule(run)
     run.clause('each request goes to the host and port it names: one client connection has one origin connection, and a request naming another origin is never appended to its pipeline')
     named_origin_rule(run, fr, list(mm))
     run.clause('a completion aborted by close_connection() does nothing: close_connection() has re-armed the accept and the next client may own the sockets already')
